@@ -132,6 +132,8 @@ impl Partition {
         drs: &DiskReadScheduler,
         perf_counter: &QueryPerfCounter,
     ) -> HashMap<String, Arc<dyn DataSource>> {
+        #[cfg(feature = "verif")]
+        crate::verif::sync_point(&format!("cols:enter:{}", self.table_name));
         let mut columns = HashMap::<String, Arc<dyn DataSource>>::new();
         for colname in referenced_cols {
             let cols = self.cols.read().unwrap();
